@@ -431,10 +431,18 @@ func c17Pack(c *Ctx) {
 	pr := c.needFunc("R-C17-3", "internal/crhttp", "packRA")
 	if pr != nil {
 		intOf := func(e *an.Expr) *an.Expr {
-			if e.Op == an.OpConv && strings.HasSuffix(e.Name, "int") {
-				return e.Args[0]
+			if e.Op != an.OpConv || !strings.HasSuffix(e.Name, "int") {
+				return nil
 			}
-			return nil
+			// int(int64(x)): conversions between integer types in between do not change the value rendered
+			x := e.Args[0]
+			for x.Op == an.OpConv && len(x.Args) == 1 && x.Typ != nil {
+				if b, ok := x.Typ.Underlying().(*types.Basic); !ok || b.Info()&types.IsInteger == 0 {
+					break
+				}
+				x = x.Args[0]
+			}
+			return x
 		}
 		durOf := func(e *an.Expr, unit, field string) bool {
 			x := intOf(e)
